@@ -277,6 +277,30 @@ theorem world_tx_third_party_repays_only_inside_a_bracket {w w' : WState} {tx : 
   · exact Or.inl h1
   · exact Or.inr (hbr h1)
 
+theorem own_of_entitled {c : Ctx} (h : EntitledSigner c false) : OwnSigner c.g c.a c.signer := by
+  unfold EntitledSigner at h
+  simp only [acctView] at h
+  rcases h with h | h | h
+  · simp at h
+  · exact Or.inl ⟨h.2.1, h.2.2⟩
+  · exact Or.inr ⟨h.2.1, h.2.2.1, h.2.2.2⟩
+
+/-- **world_tx_deposits_and_borrows_need_the_owner**: in every COMMITTED transaction each deposit and each borrow was signed by the
+    account's authority (account not frozen) or by the group admin (account frozen) — there is NO receivership path for them:
+    inside a bracket a third party may withdraw and repay, never deposit or borrow in the account's name -/
+theorem world_tx_deposits_and_borrows_need_the_owner {w w' : WState} {tx : List TOp} (h : w.runTx tx = some w') (i : Nat) :
+    (∀ ai bi signer amount upTo, tx[i]? = some (.ix (.deposit ai bi signer amount upTo)) →
+      ∃ (wi : WState) (a : AcctV), wi.accts[ai]? = some a ∧ OwnSigner wi.g a signer) ∧
+    (∀ ai bi signer amount, tx[i]? = some (.ix (.borrow ai bi signer amount)) →
+      ∃ (wi : WState) (a : AcctV), wi.accts[ai]? = some a ∧ OwnSigner wi.g a signer) := by
+  refine ⟨?_, ?_⟩
+  · intro ai bi signer amount upTo hi
+    obtain ⟨wi, a, b, o, ha, _, ho⟩ := tx_deposit_ran h hi
+    exact ⟨wi, a, ha, own_of_entitled ((world_user_instructions_need_entitled_signer _).1 amount upTo o ho).1⟩
+  · intro ai bi signer amount hi
+    obtain ⟨wi, a, b, o, ha, _, ho⟩ := tx_borrow_ran h hi
+    exact ⟨wi, a, ha, own_of_entitled ((world_user_instructions_need_entitled_signer _).2.1 amount o ho).1⟩
+
 end whole_instructions
 
 end Mfi.Props.C08
